@@ -462,7 +462,9 @@ def get_gpytorch_model_w_known_hyperparams(
         initial_values = Y[initial_indices]
 
         model.add_sample(initial_points, initial_values)
-        model.update()
+
+    # Also needed without initial samples: the training data has just been cleared.
+    model.update()
 
     return model
 
@@ -831,6 +833,8 @@ def get_gpytorch_modellist_w_known_hyperparams(
             initial_values[np.arange(initial_sample_cnt), initial_pt_obj_indices[:, 1]],
             initial_pt_obj_indices[:, 1],
         )
-        model.update()
+
+    # Also needed without initial samples: the training data has just been cleared.
+    model.update()
 
     return model
